@@ -156,6 +156,63 @@ def run(prog, rep, tier='quick', config='default'):
         rep.violation('R19b', 'matched-trades-leave-the-shared-pool', fn=m.name, where=removes[0].where() if removes else '',
                       detail='matched trades are not consumed from the pool used for later candidates / manual trades (removal: %s, candidates from pool: %s, '
                              'left-overs from pool: %s): a trade could be counted twice' % (bool(removes), bool(cand_iters), out_ok))
+    # ------------------------------------------------------------------ R19h: a trade leaves the pool only for being a matched trade
+    # the decision which pool entries go is taken by comparing whole trades (BrokerTx == BrokerTx, or pointer identity, or the index the
+    # entry was found at); a comparison of some projection of the trade (a key of file name and row, a date, a symbol) also removes
+    # other trades that agree on it, and those then appear nowhere in the output
+    def whole_cmp(g, depth=0):
+        hits, proj = [], []
+        for x in g.calls:
+            tys = [g.ty.get(a, '') or '' for a in x.arg_locals()]
+            if x.callee.endswith('ptr::eq') or x.decl.endswith('ptr::eq'):
+                hits.append(x)
+            elif x.short in ('eq', 'ne') and x.decl.endswith(('PartialEq::eq', 'PartialEq::ne')):
+                (hits if all(re.search(r'^&*(mut )?&*%s$' % re.escape(BTX), t.replace("'_ ", '').replace('&&', '&').strip()) or
+                             re.fullmatch(r'[&\s]*(mut\s)?[&\s]*' + re.escape(BTX), t) for t in tys) and tys else proj).append(x)
+            elif x.short == 'contains' and tys:
+                (hits if re.search(r'(Vec<|\[)&*%s' % re.escape(BTX), tys[0]) else proj).append(x)
+            elif depth < 2:
+                h = prog.resolve(x.callee, g.crate)
+                if h is not None and h is not g and h.name.startswith('peripheral::'):
+                    (h2, p2) = whole_cmp(h, depth + 1)
+                    hits += h2
+                    proj += p2
+        return hits, proj
+    n_dec = 0
+    for c in removes:
+        if c.short == 'retain':
+            g = mir._closure_fn_of(prog, m, c.args[1]) if len(c.args) > 1 else None
+            decs = [(c, g)] if g is not None else []
+        elif c.short in ('remove', 'swap_remove'):
+            # the index removed: found by a position() search over the pool, in this body or in a closure of it (the indexes may be
+            # gathered in a list first)
+            o = mir.provenance(m, c.args[1], follow_all_call_args=True)
+            decs = []
+            for h in prog.body_group(m):
+                for x in h.calls:
+                    if x.short in ('position', 'rposition') and len(x.args) > 1 and re.search(r'Iter<.*BrokerTx', h.ty.get(x.arg_local(0), '') or ''):
+                        g = mir._closure_fn_of(prog, h, x.args[1])
+                        if g is not None:
+                            decs.append((x, g))
+            if not decs and any(x.short == 'enumerate' for x in o.calls):
+                n_dec += 1
+                rep.ok('R19h', 'pool-entry-removed-by-identity@%s' % c.short, where=c.where(), fn=m.name, detail='removed at the index the entry was met at')
+                continue
+        else:
+            continue
+        for (x, g) in decs:
+            n_dec += 1
+            (hits, proj) = whole_cmp(g)
+            k = 'pool-entry-removed-by-identity@%s' % x.short
+            if hits:
+                rep.ok('R19h', k, where=x.where(), fn=m.name, detail='the entry to remove is found by comparing whole trades (%s)' % hits[0].short)
+            else:
+                rep.violation('R19h', k, where=x.where(), fn=m.name,
+                              detail='which pool entries are removed is decided by %s, not by comparing the trade as a whole: another trade that agrees on '
+                                     'that projection is removed with the matched one and then appears nowhere in the output'
+                                     % ('a comparison of a projection of the trade (%s at %s)' % (proj[0].short, proj[0].where()) if proj else 'a test that never compares trades'))
+    if removes and not n_dec:
+        rep.violation('R19h', 'anchor-lost:removal-decision', fn=m.name, detail='anchor lost: the comparison that selects which pool entries are removed')
     # ------------------------------------------------------------------ R19e: a benefit with sold shares is always matched
     finder_calls = [c for c in m.calls if prog.resolve(c.callee, m.crate) is not None and
                     re.search(r'Result<std::vec::Vec<&.*BrokerTx', m.ty.get(c.dst['l'], ''))]
